@@ -75,6 +75,59 @@ theorem corrfunc_ctor_spec (dr rd rr : Bool) :
   refine ⟨?_, by decide, by decide⟩
   cases dr <;> cases rd <;> cases rr <;> decide
 
+/-! ### iteration: the `Indexer` protocol (state = position; the callback raises IndexError from `n` on) -/
+
+structure Ix (α : Type) where
+  n : Nat
+  item : Nat → α
+  state : Nat
+
+/-- `__next__` -/
+def Ix.next {α} (ix : Ix α) : Option (α × Ix α) :=
+  if ix.state < ix.n then some (ix.item ix.state, { ix with state := ix.state + 1 }) else none
+
+/-- what a `for` loop collects from an indexer in its current state -/
+def Ix.drain {α} (ix : Ix α) : Nat → List α
+  | 0 => []
+  | fuel + 1 => match ix.next with
+    | none => []
+    | some (x, ix') => x :: ix'.drain fuel
+
+theorem drain_from {α} (n : Nat) (item : Nat → α) (fuel s : Nat) (h : n ≤ s + fuel) :
+    (Ix.mk n item s).drain fuel = ((List.range' s (n - s)).map item) := by
+  induction fuel generalizing s with
+  | zero =>
+    have : n - s = 0 := by omega
+    simp [Ix.drain, this]
+  | succ f ih =>
+    unfold Ix.drain Ix.next
+    by_cases hs : s < n
+    · simp only [hs, if_true]
+      rw [ih (s + 1) (by omega)]
+      have : n - s = (n - (s + 1)) + 1 := by omega
+      rw [this, List.range'_succ]
+      simp
+    · have : n - s = 0 := by omega
+      simp [hs, this]
+
+/-- **iteration** — a loop over `.bins` / `.patches` (a fresh indexer, position 0) yields item 0 … n−1 in order, and
+because every access builds a NEW indexer (`indexerFreshPerAccess`), loops that overlap in time — nested loops over the same
+container, `zip(x.bins, x.bins)` — each see all items: the position of one is not shared with the other -/
+theorem iteration_complete {α} (n : Nat) (item : Nat → α) :
+    (Ix.mk n item 0).drain (n + 1) = (List.range n).map item := by
+  rw [drain_from n item (n + 1) 0 (by omega)]
+  simp [List.range_eq_range']
+
+theorem indexer_flags : indexerFreshPerAccess = true ∧ indexerProtocolAsModelled = true := by decide
+
+/-- with ONE shared indexer the same nested loop is wrong — the inner loop rewinds and exhausts the shared position, so the
+outer loop ends after its first pass (what a cached `.patches` would do); kept as the reason why the flag matters -/
+example : let shared : Ix Nat := ⟨3, id, 0⟩
+    -- outer takes item 0; inner loop drains the rest from the rewound position; outer continues from the exhausted state
+    (match shared.next with
+     | some (_, s1) => (({ s1 with state := 0 } : Ix Nat).drain 4, ({ s1 with state := 3 } : Ix Nat).drain 4)
+     | none => ([], [])) = ([0, 1, 2], []) := by decide
+
 /-! non-vacuity / the old defect as a witness on the pre-fix predicate (kept for reference, evaluated on the model only) -/
 example : countsCtorRaises 2 [2, 3, 3] = false ∧ countsCtorRaises 2 [2, 3, 4] = true ∧ countsCtorRaises 2 [2, 3] = true := by decide
 example : sumWeightsCtorRaises 2 [2, 3] [2, 3] = false ∧ sumWeightsCtorRaises 2 [2] [2] = true ∧
